@@ -31,3 +31,41 @@ fn f25_block_on_in_drop() {
     });
     assert!(r.is_err(), "no panic");
 }
+
+/// C09 R09.1 (F8): remove_file on a directory that exists only in a lower layer succeeds and hides
+/// the directory while its children stay visible.
+#[test]
+fn f8_overlay_remove_file_on_lower_directory() {
+    let lower: VfsPath = MemoryFS::new().into();
+    let upper: VfsPath = MemoryFS::new().into();
+    lower.join("d/c").unwrap().create_dir_all().unwrap();
+    let ov: VfsPath = OverlayFS::new(&[upper, lower]).into();
+    assert!(ov.join("d").unwrap().remove_file().is_ok(), "refused");
+    assert!(!ov.join("d").unwrap().exists().unwrap());
+    assert!(ov.join("d/c").unwrap().exists().unwrap(), "child hidden as well");
+}
+
+/// C09/C19 (F11): a timestamp setter on a file served from a lower layer fails as not-found.
+#[test]
+fn f11_overlay_set_time_on_lower_file() {
+    let lower: VfsPath = MemoryFS::new().into();
+    let upper: VfsPath = MemoryFS::new().into();
+    lower.join("f").unwrap().create_file().unwrap();
+    let ov: VfsPath = OverlayFS::new(&[upper, lower]).into();
+    assert!(ov.join("f").unwrap().exists().unwrap());
+    let e = ov.join("f").unwrap().set_modification_time(std::time::SystemTime::now());
+    assert!(e.is_err(), "setter worked");
+}
+
+/// C10 R10.6 (F10): after one removal the overlay root lists its own bookkeeping directory.
+#[test]
+fn f10_overlay_lists_whiteout_directory() {
+    let lower: VfsPath = MemoryFS::new().into();
+    let upper: VfsPath = MemoryFS::new().into();
+    lower.join("f").unwrap().create_file().unwrap();
+    let ov: VfsPath = OverlayFS::new(&[upper, lower]).into();
+    ov.join("f").unwrap().remove_file().unwrap();
+    let names: Vec<String> = ov.read_dir().unwrap().map(|p| p.filename()).collect();
+    assert!(names.contains(&".whiteout".to_string()), "{:?}", names);
+    assert!(ov.join(".whiteout").unwrap().exists().unwrap());
+}
